@@ -115,6 +115,11 @@ theorem inherit_order_tie : NV.Gen.C08.inheritOrder = expectedInheritOrder ∧
     NV.Gen.C08.loadRelookupCond = "!(ob = lookup_object_hash (name))" ∧
     NV.Gen.C08.loadDepthCond = "++num_objects_this_thread > CONFIG_INT (__INHERIT_CHAIN_SIZE__)" := by decide
 
+/-- set_living_name (`setLiving`): the O_DESTRUCTED refusal comes FIRST, before the rename branch (a destructed object has
+    no living name any more, so a test inside that branch can never fire) -/
+theorem set_living_order_tie : NV.Gen.C08.setLivingOrder =
+    ["destructed-return", "rename-branch", "remove-old-name", "link-at-head", "set-name"] := by decide
+
 /-- the three flags the model keeps as separate booleans (`destructed`, `ec`, `clone`) are separate non-zero bits of
     `object_t.flags` (lpc/object.h; the walker of the harness tests them through the same macros).  Stated relative to
     the regenerated values: a renumbering of the flag word is harmless and does not break this obligation, two flags
